@@ -257,6 +257,8 @@ def run(prog, tier):
     obs.extend(dtype_hazard_obligations(prog, "float-arithmetic", ['inference/priors.py', 'inference/posterior.py']))
     from .common import call_order_obligations
     obs.extend(call_order_obligations(prog, "arguments-in-order", ['inference/priors.py', 'inference/posterior.py']))
+    from .common import identity_memo_obligations
+    obs.extend(identity_memo_obligations(prog, "result-keyed-on-values", ['inference/priors.py', 'inference/posterior.py']))
 
     obs.extend(memo_obligations(prog, "cache-key", [prog.cls("BasePrior")] + prog.subclasses("BasePrior") + [prog.cls("Posterior")]))
 
